@@ -134,8 +134,11 @@ func (s _storage) preinvoke(cmd *cobra.Command, flag *pflag.Flag, action Action)
 }
 
 func (s _storage) hasPositional(cmd *cobra.Command, index int) bool {
+	return s.hasPositionalAt(cmd, index, common.IsDash(cmd))
+}
+
+func (s _storage) hasPositionalAt(cmd *cobra.Command, index int, isDash bool) bool {
 	entry := s.get(cmd)
-	isDash := common.IsDash(cmd)
 
 	// TODO fallback to cobra defined completion if exists
 
@@ -152,8 +155,11 @@ func (s _storage) hasPositional(cmd *cobra.Command, index int) bool {
 }
 
 func (s _storage) getPositional(cmd *cobra.Command, index int) Action {
+	return s.getPositionalAt(cmd, index, common.IsDash(cmd))
+}
+
+func (s _storage) getPositionalAt(cmd *cobra.Command, index int, isDash bool) Action {
 	entry := s.get(cmd)
-	isDash := common.IsDash(cmd)
 
 	var a Action
 	switch {
